@@ -172,7 +172,7 @@ def run(ctx):
            'explanation': 'Bus.tla with OomAbort (the faulted request leaves every variable unchanged and only the caller hears NoMemory); every fault '
                           'index of every (prior state, request) pair is a separate run validated by TLC, followed by a dump of the internal registry, '
                           'a retry and queue listings'}
-    return {'level': 'model_checking', 'coverage': cov, 'violations': violations,
+    return {'level': 'fault_enumeration', 'coverage': cov, 'violations': violations,
             'assumptions': ['TLC and the CommunityModules JSON reader are correct', 'harness/c/busoom.c reports faithfully; fault injection through '
                             '_dbus_set_fail_alloc_counter only while the bus main loop runs', 'leak freedom is NOT decided here (LeakSanitizer hangs in this '
                             'sandbox); library operations (message build/copy/edit, rule and config parsing) under OOM are not covered yet',
